@@ -92,6 +92,14 @@ def sym_cells():
     for fn in ("quat_null_space", "quat_kernel"):
         c.append((f"{fn}:side", U + fn, lambda I, ctx: ([anyshape(ctx)], {"side": "up"}), V))
 
+    # option strings: EVERY string other than the documented values is rejected (an arbitrary-string value whose comparisons with the documented
+    # literals are false; a guard that looks at the characters - substring, prefix, case folding - is out of reach and stays with the bounded table)
+    from ..values import OtherStr
+    for fn in ("quat_null_space", "quat_kernel"):
+        c.append((f"{fn}:side=any_other_string", U + fn, lambda I, ctx: ([anyshape(ctx)], {"side": OtherStr(("left", "right"), "side")}), V))
+    c.append(("det:type=any_other_string", U + "det", lambda I, ctx: ([square(ctx), OtherStr(("Dieudonn\u00e9", "Dieudonne", "Study", "Moore"), "d")], {}), V))
+    c.append(("matrix_norm:ord=any_other_string", U + "matrix_norm", lambda I, ctx: ([anyshape(ctx), OtherStr(("fro", "F", "inf"), "ord")], {}), V))
+
     def real_contract_bad(I, ctx):
         m, n, r, cc = dims(ctx, "m", "n", "r", "c")
         ctx.assume(sor(r != 4 * m, cc != 4 * n), base=True)
